@@ -834,6 +834,16 @@ package router
 //@   ensures [C10:missing-tag-rejected] len(cfg.Tag) == 0 ==> err != nil
 //@   ensures [C10:dup-tag-rejected] old(has(r.domainSets, cfg.Tag)) ==> err != nil
 //@   ensures [C10:registered-under-tag] err == nil ==> has(r.domainSets, cfg.Tag) && r.domainSets[cfg.Tag] != nil
+// the set registered under the tag is one new matcher into which every configured file, and nothing else, was loaded
+//@   ghost gM *domainmatcher.MixMatcher = nil
+//@   ghost gF *os.File = nil
+//@   ghost nNew int = 0
+//@   oncall NewMixMatcher?: nNew = nNew + 1
+//@   aftercall NewMixMatcher?: gM = ret0
+//@   aftercall Open?: gF = ret0
+//@   callsite Open?: [C10,C11:a-configured-file] arg0 == cfg.Files[rangeindex]
+//@   callsite LoadMixMatcherFromReader?: [C10,C11:that-file-into-the-new-set] arg0 == gM && typeIs(arg1, *os.File) && ptrOf(arg1, os.File) == gF
+//@   ensures [C10:registered-set-is-the-one-just-loaded] err == nil ==> nNew == 1 && r.domainSets[cfg.Tag] == gM
 //@   ensures [C10:others-kept] forallkey(k, r.domainSets, (err != nil || k != keyOf(r.domainSets, cfg.Tag)) ==> has(r.domainSets, k) == old(has(r.domainSets, k)) && r.domainSets[k] == old(r.domainSets[k]))
 //@   loop 1:
 //@     modifies field(domainmatcher.labelNode), field(domainmatcher.DomainMatcher), maps(regexp.Regexp), maps(domainmatcher.labelNode)
